@@ -662,13 +662,13 @@ func genHostile(c Case, tier string) []hostileCase {
 			for j := range helpers {
 				switch r.Intn(6) {
 				case 0: // (a frame of its own account, reached only by a static call)
-					main.PushU(0).PushU(0).PushU(0).PushU(0).PushAddr(h.ContractAddr(j + 1)).PushU(150000).Op(h.STATICCALL, h.POP)
+					main.PushU(0).PushU(0).PushU(0).PushU(0).PushAddr(h.ContractAddr(j+1)).PushU(150000).Op(h.STATICCALL, h.POP)
 				case 1:
-					main.PushU(0).PushU(0).PushU(0).PushU(0).PushU(0).PushAddr(h.ContractAddr(j + 1)).PushU(150000).Op(h.CALL, h.POP)
+					main.PushU(0).PushU(0).PushU(0).PushU(0).PushU(0).PushAddr(h.ContractAddr(j+1)).PushU(150000).Op(h.CALL, h.POP)
 				case 2:
-					main.PushU(0).PushU(0).PushU(0).PushU(0).PushU(0).PushAddr(h.ContractAddr(j + 1)).PushU(150000).Op(h.CALLCODE, h.POP)
+					main.PushU(0).PushU(0).PushU(0).PushU(0).PushU(0).PushAddr(h.ContractAddr(j+1)).PushU(150000).Op(h.CALLCODE, h.POP)
 				default:
-					main.PushU(0).PushU(0).PushU(0).PushU(0).PushAddr(h.ContractAddr(j + 1)).PushU(150000).Op(h.DELEGATECALL, h.POP)
+					main.PushU(0).PushU(0).PushU(0).PushU(0).PushAddr(h.ContractAddr(j+1)).PushU(150000).Op(h.DELEGATECALL, h.POP)
 				}
 			}
 			main.Op(h.STOP)
@@ -1053,10 +1053,41 @@ func runC20(c Case, tier string) (res CaseResult) {
 				a := h.NewAsm()
 				lo.emit(a, l)
 				a.Op(h.STOP)
-				for _, f := range []h.Fork{h.Frontier, h.Byzantium, h.Berlin, h.Cancun} {
+				for _, f := range []h.Fork{h.Frontier, h.Byzantium, h.Constantinople, h.Berlin, h.Shanghai, h.Cancun} {
 					hr := runHostile(h.BaseWorld([][]byte{a.Bytes()}), h.EnvSpec{Fork: f}, []h.TxSpec{{Entry: h.ECall, From: h.Sender, To: h.ContractAddr(0), Gas: 25_000_000, Input: []byte{1, 2, 3}}},
 						fmt.Sprintf("opcode %#x with length 2^%d on %s", lo.op, sh, f), true, nil)
 					measure(hr, fmt.Sprintf("lenop%02x", lo.op))
+					// the fee must follow the length the instruction works on: the per-word / per-byte data fee of the yellow
+					// paper and the EIPs is a lower bound on what an executed instruction was charged
+					perWord := map[byte]uint64{h.KECCAK256: 6, h.CALLDATACOPY: 3, h.CODECOPY: 3, h.EXTCODECOPY: 3, h.RETURNDATACOPY: 3, h.MCOPY: 3, h.CREATE2: 6}[lo.op]
+					perByte := map[byte]uint64{h.LOG0: 8}[lo.op]
+					if f >= h.Shanghai && (lo.op == h.CREATE || lo.op == h.CREATE2) {
+						perWord += 2 // (EIP-3860 init-code word fee)
+					}
+					for i := range hr.fs.L.Events {
+						e := &hr.fs.L.Events[i]
+						if e.K != h.KStep || e.Op != lo.op || e.Err != "" || e.Depth != 1 || !l.IsUint64() {
+							continue
+						}
+						faulted := false
+						for j := i + 1; j < len(hr.fs.L.Events); j++ {
+							n := &hr.fs.L.Events[j]
+							if n.K == h.KFault {
+								faulted = n.PC == e.PC && n.Depth == e.Depth
+							}
+							if n.K == h.KFault || n.K == h.KStep || n.K == h.KEnter || n.K == h.KExit || n.K == h.KEnd {
+								break
+							}
+						}
+						if faulted {
+							continue // (refused: nothing was worked on)
+						}
+						words := (l.Uint64() + 31) / 32
+						if min := perWord*words + perByte*l.Uint64(); e.Cost < min {
+							res.Fail(Key("fee-below-data-fee", fmt.Sprintf("op%02x", lo.op)), fmt.Sprintf("instruction %#x working on %d bytes was charged %d gas, less than its data fee of %d (%d per word, %d per byte)", lo.op, l.Uint64(), e.Cost, min, perWord, perByte), hr.desc)
+						}
+						res.Count("data_fees_checked", 1)
+					}
 				}
 			}
 		}
